@@ -421,8 +421,10 @@ func (an *Analysis) createType(typ types.Type, ctx context) Type {
 
 	switch underlying := typ.Underlying().(type) {
 	case *types.Pointer:
-		elem := an.handleType(underlying.Elem(), ctx) // recurse for the element
-		return &Pointer{Elem: elem}
+		out := &Pointer{}
+		an.Types[typ] = out                              // register before recursing, see below
+		out.Elem = an.handleType(underlying.Elem(), ctx) // recurse for the element
+		return out
 	case *types.Basic:
 		return &Basic{B: underlying}
 
